@@ -85,6 +85,10 @@ def rel_C11(ln, prev):
     return len(ln['events']) > 0
 
 
+def rel_C12(ln, prev):
+    return ln['op'] in STRUCT_OPS | {'QClose', 'QNext', 'QStep'} and _ok(ln)
+
+
 def rel_C15(ln, prev):
     if ln['op'] == 'TwinEq':
         if ln['api'] == 'reset':
@@ -346,6 +350,8 @@ PROPS = {
     'C09': W(rel_C09, [('base', 60, 1000), ('locks', 140, 1500)], locks=True, extra=locks_part),
     'C10': W(rel_C10, [('base', 60, 1000), ('faults', 140, 1500)]),
     'C11': W(rel_C11, [('events', 200, 2500)]),
+    'C12': lambda ctx: world_check(ctx, rel_C12, [('subs', 200, 2500)], assumptions=A_WORLD,
+                                   mcs=[('MCEvents.tla', 'MCEvents.cfg' if ctx.quick else 'MCEvents_thorough.cfg', dict(timeout=1800))]),
     'C15': W(rel_C15, [('resettwin', 160, 2000), ('reset', 40, 500)], pool=True),
     'C17': lambda ctx: world_check(ctx, rel_C17, [('loadtwin', 200, 2500)], mcs=mc_pool(ctx), assumptions=A_WORLD),
     'C20': W(rel_C20, [('base', 60, 1000), ('resources', 140, 1500)]),
